@@ -97,6 +97,8 @@ def xxh3_oracle_lines(ops):
             blobs.append(bytes.fromhex(t[4][1:]))
         elif t[0] == "wopen" and "algo=xxh3" in t:
             writers[t[3]] = b""
+        elif t[0] == "wcreate" and len(t) > 5 and t[5] == "xxh3":
+            writers[t[3]] = b""
         elif t[0] in ("wwrite", "wwrite1") and t[1] in writers:
             writers[t[1]] += bytes.fromhex(t[2][1:])
         elif t[0] == "link_to" or t[0] == "lopen":
